@@ -94,7 +94,14 @@ func (p *Provider) Run(ctx context.Context, deps core.ProviderDeps) (err error) 
 	return
 }
 
+// passCounter is implemented by the decoders: number of completed passes over the ammo file.
+type passCounter interface {
+	PassNum() uint
+}
+
 func (p *Provider) runFullScan(ctx context.Context) error {
+	filtered := len(p.Config.ChosenCases) > 0
+	delivered := uint(0)
 	for {
 		if err := ctx.Err(); err != nil {
 			if !errors.Is(err, context.Canceled) {
@@ -102,14 +109,25 @@ func (p *Provider) runFullScan(ctx context.Context) error {
 			}
 			return err
 		}
+		if filtered && p.Limit != 0 && delivered >= p.Limit {
+			// with chosencases the limit counts delivered ammo (the decoder does not limit then)
+			return nil
+		}
 		ammo, err := p.Decoder.Scan(ctx)
 		if err != nil {
 			if errors.Is(err, decoders.ErrAmmoLimit) || errors.Is(err, decoders.ErrPassLimit) {
 				err = nil
+				if filtered && delivered == 0 {
+					err = decoders.ErrNoAmmo
+				}
 			}
 			return err
 		}
 		if !confutil.IsChosenCase(ammo.Tag(), p.Config.ChosenCases) {
+			if pc, ok := p.Decoder.(passCounter); ok && delivered == 0 && pc.PassNum() > 0 {
+				// a whole pass without a single chosen ammo: same result as the preloaded path
+				return decoders.ErrNoAmmo
+			}
 			continue
 		}
 
@@ -121,6 +139,7 @@ func (p *Provider) runFullScan(ctx context.Context) error {
 			}
 			return err
 		case p.Sink <- ammo:
+			delivered++
 		}
 	}
 }
